@@ -65,6 +65,14 @@ CfgPanicLvl(c) == IF HasPanicLvl(c) THEN "warn" ELSE "none"   \* with_panic_lvl
 \*   ok / err   = ok_lvl debug / err_lvl warn given
 \*   okD / errD = ok_lvl / err_lvl absent: the expansion falls back to the span's level
 \*   errM / errMD = the same two with the error passed through an `err:` mapper
+\* Other forms of completion (the 'completion form' dimension; every form completes exactly
+\* once with the same data):
+\*   rec1..3 = completion::from_fn / FromFn::new recording what it is given
+\*   recRef  = the same behind a reference (impl Completion for &C)
+\*   recSS   = the same behind dyn ErasedCompletion + Send + Sync
+\*   fromE   = completion::from_emitter / FromEmitter::new: the span goes to the emitter as
+\*             it is - no level, no panic detection, no ambient context (no ids)
+\*   empty   = emit::Empty: completes (complete* returns true) without anything to observe
 OkKinds == {"ok", "okD"}
 ErrKinds == {"err", "errD", "errM", "errMD"}
 ResultKinds == OkKinds \cup ErrKinds
@@ -119,12 +127,14 @@ BLvl(c, pan, dc) ==
     ELSE IF c \in {"err", "errM"} THEN "warn"            \* err_lvl of the fixtures
     ELSE IF c \in {"errD", "errMD"}                      \* .or_else(default_lvl).unwrap_or(error)
          THEN (IF CfgLvl(dc) # "none" THEN CfgLvl(dc) ELSE "error")
+    ELSE IF c = "fromE" THEN "none"                      \* Emitter::emit(span), nothing added
     ELSE "na"
 BErr(c, pan) ==
     IF c \in DefaultKinds THEN (IF pan THEN "panicked" ELSE "none")
     ELSE IF c \in OkKinds THEN "none"
     ELSE IF c \in {"err", "errD"} THEN "some"
     ELSE IF c \in {"errM", "errMD"} THEN "mapped"   \* what the mapper returned
+    ELSE IF c = "fromE" THEN "none"
     ELSE "na"
 
 \* Timer::extent
@@ -350,12 +360,13 @@ ALvl(c, pan, sc) ==
     ELSE IF c = "okD" THEN ASpanLvl(sc)
     ELSE IF c \in {"err", "errM"} THEN "warn"
     ELSE IF c \in {"errD", "errMD"} THEN (IF ASpanLvl(sc) # "none" THEN ASpanLvl(sc) ELSE "error")
+    ELSE IF c = "fromE" THEN "none"     \* a custom handler: the span as it is
     ELSE "na"
 \* errM: "the mapped error must be the err of the completed span"
 AErr(c, pan) ==
     IF c \in DefaultKinds THEN (IF pan THEN "panicked" ELSE "none")
     ELSE IF c \in OkKinds THEN "none" ELSE IF c \in {"err", "errD"} THEN "some"
-    ELSE IF c \in {"errM", "errMD"} THEN "mapped" ELSE "na"
+    ELSE IF c \in {"errM", "errMD"} THEN "mapped" ELSE IF c = "fromE" THEN "none" ELSE "na"
 \* The statement gives the panic level and error for the scope-exit path (the guard dropped
 \* by unwinding).  For an explicit complete / complete_with made while unwinding it only
 \* says "exactly once": lvl / err then carry what the code does (level B) and are not part
